@@ -2497,9 +2497,9 @@ def gen_select_case(rng, directed=None):
     if directed is not None:
         return directed
     names = SEL_NAMES + ['bogus']
-    nm = int(rng.choice([0, 1, 1, 2, 3, 4, 5]))
+    nm = int(rng.choice([0, 1, 2, 2, 3, 3, 4, 5]))
     use_method_arg = bool(rng.random() < 0.2)
-    methods = [str(rng.choice(names)) for _ in range(1 if use_method_arg else nm)]
+    methods = [str(rng.choice(names, p=[0.2, 0.2, 0.25, 0.25, 0.1])) for _ in range(1 if use_method_arg else nm)]
     cpu = int(rng.choice([1, 2, 4, 16]))
     threads = None if rng.random() < 0.55 else int(rng.choice([1, 2, 3, cpu]))
     big = bool(rng.random() < 0.12)
@@ -2514,7 +2514,7 @@ def gen_select_case(rng, directed=None):
     attempts = sorted(set([cpu, 1] + ([threads] if threads is not None else [])))
     for m in SEL_NAMES:
         r = rng.random()
-        if r < 0.25:
+        if r < 0.15:
             fails += [[m, t] for t in attempts]            # raises whatever the number of workers
         elif r < 0.45 and m in ('fftw', 'scipy'):
             fails.append([m, int(rng.choice(attempts))])   # raises for one number of workers only
@@ -2562,7 +2562,7 @@ def run_select_real(case):
     import scipy.fft as _sfft
     from hcipy._math import fft as F
     func_name = case['func']
-    log = []
+    log, anomalies = [], []
     fails = set((m, t) for m, t in case['fails'])
     all_t = sorted(set([case['cpu'], 1] + ([case['threads']] if case['threads'] is not None else [])))
 
@@ -2571,7 +2571,7 @@ def run_select_real(case):
             w = kw.pop('workers', None)
             kw.pop('overwrite_x', None)
             if (w is not None) != takes_workers:
-                raise MachineryError('fake %s called with workers=%r' % (name, w))
+                anomalies.append('backend %s called with workers=%r' % (name, w))
             log.append((name, w))
             bad = ((name, w) in fails) if takes_workers else all((name, t) in fails for t in all_t)
             if bad:
@@ -2615,6 +2615,7 @@ def run_select_real(case):
         for k, v in saved.items():
             setattr(F, k, v)
     obs['calls'] = list(log)
+    obs['anomalies'] = anomalies
     obs['intact'] = bool(np.array_equal(x, x0))
     obs['ref'] = sreal(x0)
     return obs
@@ -2636,6 +2637,11 @@ def select_oracle(case, obs):
     attempts = [case['threads']] if case['threads'] is not None else ([case['cpu'], 1] if case['big'] else [1])
     some_works = any(usable.get(m, False) and (m, t) not in fails for t in attempts for m in case['methods'])
     tag = 'threads=%s' % ('None' if case['threads'] is None else 'n')
+    if obs['anomalies']:
+        return [('select workers-argument', '%s: %s' % (case['func'], obs['anomalies'][0]))]
+    for name, w in obs['calls']:
+        if w is not None and w not in attempts:
+            return [('select workers-argument', '%s(x, threads=%r): backend %s called with workers=%r, not one of the attempts %r' % (case['func'], case['threads'], name, w, attempts))]
     if 'error' in obs:
         if obs['error'] != 'ValueError' or 'No suitable' not in obs['msg']:
             bad.append(('select raises %s %s' % (obs['error'], tag),
@@ -2757,7 +2763,8 @@ def run_cache_real(kind, params, pre, alloc, via_config, new_style, script):
                 return hcipy.MatrixFourierTransform(pupil, focal, precompute_matrices=pre_, allocate_intermediate=alloc_)
             return hcipy.NaiveFourierTransform(pupil, focal, precompute_matrices=pre_)
         if via_config:
-            with config(mft_pre=pre, mft_alloc=alloc, nft_pre=pre):
+            # the *other* transform's switch is set the opposite way: reading the wrong key shows
+            with config(**({'mft_pre': pre, 'mft_alloc': alloc, 'nft_pre': not pre} if kind == 'mft' else {'nft_pre': pre, 'mft_pre': not pre, 'mft_alloc': not pre})):
                 obj = make(None, None)
         else:
             obj = make(pre, alloc)
@@ -2770,8 +2777,12 @@ def run_cache_real(kind, params, pre, alloc, via_config, new_style, script):
             fresh = make(False, False)
             with warnings.catch_warnings():
                 warnings.simplefilter('error')
-                r = (obj.forward if d == 'f' else obj.backward)(fld)
                 f = (fresh.forward if d == 'f' else fresh.backward)(fld.copy())
+                try:
+                    r = (obj.forward if d == 'f' else obj.backward)(fld)
+                except Exception as e:  # noqa
+                    rows.append({'raises': '%s: %s' % (type(e).__name__, str(e)[:100]), 'state': 'raised', 'err': float('inf')})
+                    break
             ra, fa = np.asarray(r), np.asarray(f)
             err = float(np.max(np.abs(ra - fa))) / max(float(np.max(np.abs(fa))), 1e-300)
             key = lambda dt: '-' if dt is None else {'complex64': '64', 'complex128': '128'}.get(str(np.dtype(dt)), str(dt))
@@ -2795,7 +2806,9 @@ def check_cache(ctx, kind, params, pre, alloc, via_config, new_style, script):
     sw = 'pre=%d' % pre + (' alloc=%d' % alloc if kind == 'mft' else '')
     for i, (row, (d, p)) in enumerate(zip(rows, script)):
         tol = 5e-4 if p == 64 else 1e-9
-        if not row['err'] <= tol:
+        if 'raises' in row:
+            bad.append(('cache %s raises %s' % (kind, sw), 'call %d (%s, complex%d) on the reused %s object (%s) raises %s; a fresh object with the switches off works' % (i, d, p, kind, sw, row['raises'])))
+        elif not row['err'] <= tol:
             bad.append(('cache %s values %s' % (kind, sw), 'call %d (%s, complex%d) on the reused %s object (%s) differs by %.3g relative from a fresh object with the switches off' % (
                 i, d, p, kind, sw, row['err'])))
         elif not row['dtype_ok'] or not row['grid_ok']:
